@@ -479,6 +479,150 @@ class CastSpec(FnSpec):
         return [("otherwise-to-partial", z3.BoolVal(isinstance(res, Marker) and res.same(want)), "anything else goes through to_partial with the caller's ignore_invalid")]
 
 
+# --- from_partial / merge: completing a partial, folding many ---------------------------------------------------------------------------------
+VFP = z3.Function("val_from_partial", Val, Val)  # recursive conversion of nested partials / lists / sets (bounded)
+
+
+def items_map_schema(interp, cx, fr, e):
+    """`{k: f(v) for k, v in <items of a symbolic map>}`: same keys, each value mapped by f (evaluated once on a generic value)"""
+    import ast
+
+    from pyvc.api import ContractStale
+    from pyvc.containers import MapItems
+    from pyvc.engine import Env, Frame
+
+    if not isinstance(e, ast.DictComp) or len(e.generators) != 1 or e.generators[0].ifs:
+        return NotImplemented
+    g = e.generators[0]
+    src = interp.eval(cx, fr, g.iter)
+    if not isinstance(src, MapItems):
+        return NotImplemented
+    if not (isinstance(g.target, ast.Tuple) and len(g.target.elts) == 2 and all(isinstance(x, ast.Name) for x in g.target.elts) and isinstance(e.key, ast.Name) and e.key.id == g.target.elts[0].id):
+        raise ContractStale("from_partial no longer maps the provided (name, value) pairs to name -> converted value")
+    m = src.m
+    kk = z3.Const(fresh_name("fk"), m.kt.sort())
+    sub = Frame(fr.modinfo, fr.qual, Env(fr.env), spec=fr.spec, cls=fr.cls)
+    sub.env.set(g.target.elts[0].id, m.kt.wrap(kk))
+    sub.env.set(g.target.elts[1].id, m.vt.wrap(m.get_term(kk)))
+    vals, fails, axioms = interp.eval_exprs_on_element(cx, sub, None, None, [e.value], kk)
+    if fails or axioms:
+        raise Unsupported("value conversion may raise")
+    res = SMap.fresh(m.kt, m.vt, "converted_fields")
+    cx.assume(z3.ForAll([kk], z3.And(res.has(kk) == m.has(kk), z3.Implies(m.has(kk), res.get_term(kk) == m.vt.unwrap(cx, vals[0])))))
+    return res
+
+
+class FromPartial(FnSpec):
+    file = "schema/partial.py"
+    qual = "PartialModel.from_partial"
+    props = ("C14",)
+
+    def init(self):
+        self.bindings["val_from_partial"] = lambda cx, v: DynVal(VFP(v.t))
+        self.comps[0] = items_map_schema
+
+    def setup(self, cx):
+        from pyvc.containers import MapItems
+
+        for ax in val_axioms():
+            cx.assume(ax)
+        me = SObj("PartialObj", name="self")
+        provided = SMap.fresh(STR, TVal(), "provided_field_values")
+        fac = SObj("FactoryStub", name="fac")
+        fac.fields["_get_field_vals"] = lambda cx2, o: (MapItems(provided) if o is me else (_ for _ in ()).throw(Unsupported("values of another object")))
+        me.fields["__partial_fac__"] = fac
+
+        class Src(SVal):
+            def meth_parse_obj(s, cx2, d):
+                return ("parse_obj", d)
+
+        me.fields["__partial_src__"] = Src()
+        a = A(self=me)
+        a.provided = provided
+        return a
+
+    def raises(self, cx, a):
+        return {}
+
+    def ensures(self, cx, a, res):
+        ok = isinstance(res, tuple) and res[0] == "parse_obj" and isinstance(res[1], SMap)
+        if not ok:
+            return [("validated-by-the-source-model", z3.BoolVal(False), "")]
+        d = res[1]
+        k = z3.String(fresh_name("pk"))
+        return [("every-provided-value-reaches-validation-converted", z3.ForAll([k], z3.And(d.has(k) == a.provided.has(k), z3.Implies(d.has(k), d.get_term(k) == VFP(a.provided.get_term(k))))), "the complete model is validated from EVERY value the partial provides (nested partials converted back recursively), and from nothing else")]
+
+
+class MergeTok(SVal):
+    def __init__(self, *desc):
+        self.desc = desc
+
+    def py_truth(self, cx):
+        return True
+
+
+class CastedTok(MergeTok):
+    def meth_merge_with(self, cx, y, **kw):
+        return MergeTok("merge_with", self, y, tuple(sorted(kw.items())))
+
+
+class MergeCls(SVal):
+    def py_call(self, cx, *a, **kw):
+        return MergeTok("empty-partial") if not a and not kw else (_ for _ in ()).throw(Unsupported("cls(...)"))
+
+    def meth_cast(self, cx, x, **kw):
+        return CastedTok("cast", x) if not kw else (_ for _ in ()).throw(Unsupported("cast with options"))
+
+
+class MergeFold(FnSpec):
+    file = "schema/partial.py"
+    qual = "PartialModel.merge"
+    props = ("C14",)
+
+    def init(self):
+        self.bindings["reduce"] = lambda cx, f, xs: MergeTok("left-fold", f, xs)
+
+    def setup(self, cx):
+        from pyvc.engine import KwDict
+
+        empty = cx.choose(2) == 0
+        flags = [{}, {"ignore_invalid": True}, {"allow_overwrite": True}, {"ignore_invalid": True, "allow_overwrite": True}][cx.choose(4)]
+        objs = () if empty else (MergeTok("o1"), MergeTok("o2"), MergeTok("o3"))
+        a = A(cls=MergeCls(), __varargs__=list(objs), __kwargs__=dict(flags))
+        a.empty, a.flags, a.objs = empty, flags, objs
+        return a
+
+    def raises(self, cx, a):
+        return {}
+
+    def ensures(self, cx, a, res):
+        if a.empty:
+            return [("no-operands-give-the-empty-partial", z3.BoolVal(isinstance(res, MergeTok) and res.desc == ("empty-partial",)), "merging nothing gives the empty partial (the identity of merging)")]
+        ok = isinstance(res, CastedTok) and res.desc[0] == "cast" and isinstance(res.desc[1], MergeTok) and res.desc[1].desc[0] == "left-fold" and tuple(res.desc[1].desc[2]) == tuple(a.objs)
+        return [("left-fold-of-all-operands-in-order", z3.BoolVal(bool(ok)), "merge(o1, ..., on) is the left fold ((o1 + o2) + ...) + on over ALL operands in the given order, cast to this partial class")]
+
+
+class MergeTwo(FnSpec):
+    file = "schema/partial.py"
+    qual = "PartialModel.merge.<locals>.merge_two"
+    props = ("C14",)
+
+    def setup(self, cx):
+        ii, ao = bool(cx.choose(2)), bool(cx.choose(2))
+        self.bindings["cls"] = MergeCls()
+        self.bindings["ignore_invalid"], self.bindings["allow_overwrite"] = ii, ao
+        a = A(x=MergeTok("x"), y=MergeTok("y"))
+        a.ii, a.ao = ii, ao
+        return a
+
+    def raises(self, cx, a):
+        return {}
+
+    def ensures(self, cx, a, res):
+        ok = isinstance(res, MergeTok) and res.desc[0] == "merge_with" and isinstance(res.desc[1], CastedTok) and res.desc[1].desc[1] is a.x and res.desc[2] is a.y and dict(res.desc[3]) == {"ignore_invalid": a.ii, "allow_overwrite": a.ao}
+        return [("left-operand-cast-then-merged-with-the-right-under-the-callers-flags", z3.BoolVal(bool(ok)), "each fold step is cast(x).merge_with(y) with exactly the caller's ignore_invalid / allow_overwrite (so overwrite permission is never granted silently)")]
+
+
 def pairs_filter(interp, cx, fr, e):
     """`((k, v) for k, v in MAP.items() if P(k, v))` read as the sub-map of MAP (order is irrelevant to the callers)"""
     import ast
@@ -540,7 +684,7 @@ def build(reg):
 
     reg.set_class_home("PartialSchemas", "schema/core.py")
     reg.method_bindings[("PartialSchemas", "super._get_field_vals")] = lambda cx, me, obj: MapItems(cx.ghost["sgfv"].base)  # PartialFactory._get_field_vals: its own contract (GetFieldVals)
-    specs = [UpdateField(), MergeWith(), GetFieldVals(), SchemaGetFieldVals(), ToPartial(), CastSpec()]
+    specs = [UpdateField(), MergeWith(), GetFieldVals(), SchemaGetFieldVals(), ToPartial(), CastSpec(), FromPartial(), MergeFold(), MergeTwo()]
     for s in specs:
         reg.add(s)
     return {
